@@ -37,7 +37,8 @@ CONSTANTS
     MaxTime,
     \* deviations (all FALSE = the code as it is)
     DevNoClosedCheck,      \* the background merge does not look at `closed`
-    DevTaskEndsOnError     \* the merge task returns when a merge fails
+    DevTaskEndsOnError,    \* the merge task returns when a merge fails
+    DevDropDoesNotWait     \* the drop does not wait for the merge that holds the writer (the code before the repair of D10)
 
 VARIABLES
     now,
@@ -55,10 +56,11 @@ VARIABLES
     effects,       \* disk effects caused through handles after the close
     lateWork,      \* background merges / syncs that STARTED after the close
     dropTime,      \* when the store was dropped (-1 = not yet)
+    waited,        \* the drop has taken the writer once (after setting the flag): whatever held it has finished
     lastEnd        \* when the last merge ended
 
 vars == <<now, open, closed, sender, mt, stt, exited, trig, crossed, merges, spurious, lastSync, effects,
-          lateWork, dropTime, lastEnd>>
+          lateWork, dropTime, waited, lastEnd>>
 
 T(st, w) == [st |-> st, wake |-> w, from |-> now]
 Sleep(w) == T("sleep", w)
@@ -72,7 +74,7 @@ Init ==
     /\ mt \in (IF Policy = "never" THEN {Done} ELSE {[st |-> "sleep", wake |-> d, from |-> 0] : d \in (I - J)..(I + J)})
     /\ stt = IF S = 0 THEN Done ELSE [st |-> "sleep", wake |-> S, from |-> 0]
     /\ exited = FALSE /\ trig = FALSE /\ crossed = -1 /\ merges = 0 /\ spurious = FALSE
-    /\ lastSync = 0 /\ effects = 0 /\ lateWork = 0 /\ dropTime = -1 /\ lastEnd = 0
+    /\ lastSync = 0 /\ effects = 0 /\ lateWork = 0 /\ dropTime = -1 /\ waited = FALSE /\ lastEnd = 0
 
 Due(t) == t.st = "sleep" /\ t.wake <= now
 Transient(t) == t.st \in {"woke", "triggered"}
@@ -84,28 +86,28 @@ Tick ==
     /\ ~SeesShutdown(mt) /\ ~SeesShutdown(stt) /\ ~(closed /\ sender)
     /\ ~(mt = Done /\ stt = Done /\ ~exited)
     /\ now' = now + 1
-    /\ UNCHANGED <<open, closed, sender, mt, stt, exited, trig, crossed, merges, spurious, lastSync, effects, lateWork, dropTime, lastEnd>>
+    /\ UNCHANGED <<open, closed, sender, mt, stt, exited, trig, crossed, merges, spurious, lastSync, effects, lateWork, dropTime, waited, lastEnd>>
 
 \* the write pattern crosses (or stops crossing) a trigger (not in the zero time between the check and
 \* the start of a merge)
 EnvTrigger ==
     /\ open /\ ~Transient(mt) /\ trig' = ~trig
     /\ crossed' = IF ~trig THEN now ELSE -1
-    /\ UNCHANGED <<now, open, closed, sender, mt, stt, exited, merges, spurious, lastSync, effects, lateWork, dropTime, lastEnd>>
+    /\ UNCHANGED <<now, open, closed, sender, mt, stt, exited, merges, spurious, lastSync, effects, lateWork, dropTime, waited, lastEnd>>
 
 -----------------------------------------------------------------------------------------
 (* merge task *)
 \* select!: the sleep is over (when the shutdown is ready too, select! may take either branch)
 MergeTimer ==
     /\ Due(mt) /\ mt' = T("woke", 0)
-    /\ UNCHANGED <<now, open, closed, sender, stt, exited, trig, crossed, merges, spurious, lastSync, effects, lateWork, dropTime, lastEnd>>
+    /\ UNCHANGED <<now, open, closed, sender, stt, exited, trig, crossed, merges, spurious, lastSync, effects, lateWork, dropTime, waited, lastEnd>>
 \* can_merge(): the window and the triggers (not the closed flag)
 MergeCheck ==
     /\ mt.st = "woke"
     /\ IF trig /\ InWindow
          THEN mt' = T("triggered", 0)
          ELSE \E d \in (I - J)..(I + J) : mt' = Sleep(now + d)
-    /\ UNCHANGED <<now, open, closed, sender, stt, exited, trig, crossed, merges, spurious, lastSync, effects, lateWork, dropTime, lastEnd>>
+    /\ UNCHANGED <<now, open, closed, sender, stt, exited, trig, crossed, merges, spurious, lastSync, effects, lateWork, dropTime, waited, lastEnd>>
 \* spawn_blocking(handle.merge()): the closed check; a refused merge is logged and the loop goes on
 MergeStart ==
     /\ mt.st = "triggered"
@@ -116,62 +118,68 @@ MergeStart ==
               /\ merges' = merges + 1 /\ crossed' = -1
               /\ lateWork' = IF closed THEN lateWork + 1 ELSE lateWork
               /\ spurious' = (spurious \/ ~trig \/ ~InWindow)
-    /\ UNCHANGED <<now, open, closed, sender, stt, exited, trig, lastSync, effects, dropTime, lastEnd>>
+    /\ UNCHANGED <<now, open, closed, sender, stt, exited, trig, lastSync, effects, dropTime, waited, lastEnd>>
 \* the merge returns, with or without an error: back to the top of the loop
 MergeDone ==
     /\ mt.st = "busy"
     /\ \E d \in (I - J)..(I + J) : mt' = Sleep(now + d)
     /\ lastEnd' = now
-    /\ UNCHANGED <<now, open, closed, sender, stt, exited, trig, crossed, merges, spurious, lastSync, effects, lateWork, dropTime>>
+    /\ UNCHANGED <<now, open, closed, sender, stt, exited, trig, crossed, merges, spurious, lastSync, effects, lateWork, dropTime, waited>>
 MergeFails ==
     /\ mt.st = "busy"
     /\ IF DevTaskEndsOnError THEN mt' = Done ELSE \E d \in (I - J)..(I + J) : mt' = Sleep(now + d)
     /\ lastEnd' = now
     \* the trigger is still exceeded: the deadline for the next attempt counts from here
     /\ crossed' = IF trig THEN now ELSE crossed
-    /\ UNCHANGED <<now, open, closed, sender, stt, exited, trig, merges, spurious, lastSync, effects, lateWork, dropTime>>
+    /\ UNCHANGED <<now, open, closed, sender, stt, exited, trig, merges, spurious, lastSync, effects, lateWork, dropTime, waited>>
 \* select!: shutdown.recv() completes because the sender is gone - no timer involved
 MergeSeesShutdown ==
     /\ SeesShutdown(mt) /\ mt' = Done
-    /\ UNCHANGED <<now, open, closed, sender, stt, exited, trig, crossed, merges, spurious, lastSync, effects, lateWork, dropTime, lastEnd>>
+    /\ UNCHANGED <<now, open, closed, sender, stt, exited, trig, crossed, merges, spurious, lastSync, effects, lateWork, dropTime, waited, lastEnd>>
 
 -----------------------------------------------------------------------------------------
 (* sync task *)
 SyncTimer ==
     /\ Due(stt) /\ stt' = T("woke", 0)
-    /\ UNCHANGED <<now, open, closed, sender, mt, exited, trig, crossed, merges, spurious, lastSync, effects, lateWork, dropTime, lastEnd>>
+    /\ UNCHANGED <<now, open, closed, sender, mt, exited, trig, crossed, merges, spurious, lastSync, effects, lateWork, dropTime, waited, lastEnd>>
 \* spawn_blocking(handle.sync()): refused when closed, otherwise the active file is forced
 SyncRun ==
     /\ stt.st = "woke"
     /\ stt' = Sleep(now + S)
     /\ lastSync' = IF closed THEN lastSync ELSE now
-    /\ UNCHANGED <<now, open, closed, sender, mt, exited, trig, crossed, merges, spurious, effects, lateWork, dropTime, lastEnd>>
+    /\ UNCHANGED <<now, open, closed, sender, mt, exited, trig, crossed, merges, spurious, effects, lateWork, dropTime, waited, lastEnd>>
 SyncSeesShutdown ==
     /\ SeesShutdown(stt) /\ stt' = Done
-    /\ UNCHANGED <<now, open, closed, sender, mt, exited, trig, crossed, merges, spurious, lastSync, effects, lateWork, dropTime, lastEnd>>
+    /\ UNCHANGED <<now, open, closed, sender, mt, exited, trig, crossed, merges, spurious, lastSync, effects, lateWork, dropTime, waited, lastEnd>>
 
 -----------------------------------------------------------------------------------------
-(* Drop for Bitcask: handle.close(), then the fields (the sender) are dropped *)
+(* Drop for Bitcask: handle.close() - the flag, then the writer is taken once -, then the fields (the sender) are dropped *)
 DropStore ==
     /\ open /\ open' = FALSE /\ closed' = TRUE /\ dropTime' = now
-    /\ UNCHANGED <<now, sender, mt, stt, exited, trig, crossed, merges, spurious, lastSync, effects, lateWork, lastEnd>>
+    /\ UNCHANGED <<now, sender, mt, stt, exited, trig, crossed, merges, spurious, lastSync, effects, lateWork, waited, lastEnd>>
+\* close() takes the writer: a merge that holds it (busy) finishes first
+DropWaitsForWriter ==
+    /\ closed /\ ~waited /\ (mt.st # "busy" \/ DevDropDoesNotWait)
+    /\ waited' = TRUE
+    /\ UNCHANGED <<now, open, closed, sender, mt, stt, exited, trig, crossed, merges, spurious, lastSync, effects, lateWork, dropTime, lastEnd>>
+\* the drop returns (the fields go: the sender)
 DropSender ==
-    /\ closed /\ sender /\ sender' = FALSE
-    /\ UNCHANGED <<now, open, closed, mt, stt, exited, trig, crossed, merges, spurious, lastSync, effects, lateWork, dropTime, lastEnd>>
+    /\ closed /\ waited /\ sender /\ sender' = FALSE
+    /\ UNCHANGED <<now, open, closed, mt, stt, exited, trig, crossed, merges, spurious, lastSync, effects, lateWork, dropTime, waited, lastEnd>>
 \* the thread returns when both tasks have (with policy `never` and no interval sync that is at once)
 BgExit ==
     /\ mt = Done /\ stt = Done /\ ~exited /\ exited' = TRUE
-    /\ UNCHANGED <<now, open, closed, sender, mt, stt, trig, crossed, merges, spurious, lastSync, effects, lateWork, dropTime, lastEnd>>
+    /\ UNCHANGED <<now, open, closed, sender, mt, stt, trig, crossed, merges, spurious, lastSync, effects, lateWork, dropTime, waited, lastEnd>>
 \* any Handle method after the close: fails with Closed, no effect (effects stays 0)
 HandleOpAfterClose ==
     /\ closed
     /\ UNCHANGED vars
 
 Next == Tick \/ EnvTrigger \/ MergeTimer \/ MergeCheck \/ MergeStart \/ MergeDone \/ MergeFails \/ MergeSeesShutdown
-        \/ SyncTimer \/ SyncRun \/ SyncSeesShutdown \/ DropStore \/ DropSender \/ BgExit \/ HandleOpAfterClose
+        \/ SyncTimer \/ SyncRun \/ SyncSeesShutdown \/ DropStore \/ DropWaitsForWriter \/ DropSender \/ BgExit \/ HandleOpAfterClose
 Spec == Init /\ [][Next]_vars
         /\ WF_vars(MergeSeesShutdown) /\ WF_vars(SyncSeesShutdown) /\ WF_vars(BgExit) /\ WF_vars(MergeDone)
-        /\ WF_vars(MergeCheck) /\ WF_vars(MergeStart) /\ WF_vars(SyncRun) /\ WF_vars(DropSender)
+        /\ WF_vars(MergeCheck) /\ WF_vars(MergeStart) /\ WF_vars(SyncRun) /\ WF_vars(DropSender) /\ WF_vars(DropWaitsForWriter)
         /\ WF_vars(MergeTimer) /\ WF_vars(SyncTimer)
 
 -----------------------------------------------------------------------------------------
@@ -199,5 +207,7 @@ NoWorkStartsAfterClose == lateWork = 0
 \* the worker is gone at once: no time passes between the drop (or the end of a merge that was running
 \* at the drop) and its exit
 PromptExit == (~open /\ ~exited /\ mt.st # "busy") => now <= Max(dropTime, lastEnd)
+\* once the drop has RETURNED no merge of this store is at work any more: whoever opens the directory next is alone in it
+NoWriterAfterDropReturned == ~sender => mt.st # "busy"
 BgExitsWithoutTimer == (~open) ~> exited
 =======================================================================================
